@@ -54,6 +54,9 @@ def run(idx: Index, rep: Report, tier: str):
     check_iqpe_feedback(idx, rep, tier)
     check_state_preparation(idx, rep, tier)
     check_qpe_register(idx, rep, tier)
+    # the controlled evolution phase estimation kicks back from: the operator-exponential generator under control, angles at multiples of the period included
+    from .C06 import check_operator_circuit
+    check_operator_circuit(idx, rep)
 
 
 def _dft_on(qubits: List[int], n_total: int, inverse: bool, swap: bool) -> np.ndarray:
@@ -182,47 +185,51 @@ def check_iqpe_feedback(idx: Index, rep: Report, tier: str):
                 fo = cs.make_folder(idx, IQPE)
                 fo.env["np.pi"] = math.pi
                 obj = fo.instantiate(cls, [n_bits, 0, _KickUnitary()], {})
-                state = [1.0 + 0j, 0j]
-                outcome = "0"                       # the first (dummy) measurement of the ancilla in |0>
-                for _round in range(n_bits + 2):
-                    gates = call(obj, "return_gates", outcome)
-                    if not gates:
+                for shot in range(2):                   # two shots on the same control object: finalize() has to restore whatever a shot changed
+                    state = [1.0 + 0j, 0j]
+                    outcome = "0"                       # the first (dummy) measurement of the ancilla in |0>
+                    for _round in range(n_bits + 2):
+                        gates = call(obj, "return_gates", outcome)
+                        if not gates:
+                            break
+                        for g in gates:
+                            nm, par = g.fields["name"], g.fields["parameter"]
+                            a, b = state
+                            if nm == "X":
+                                state = [b, a]
+                            elif nm == "H":
+                                state = [(a + b) / math.sqrt(2), (a - b) / math.sqrt(2)]
+                            elif nm == "PHASE":
+                                state = [a, b * cmath.exp(1j * float(par))]
+                            elif nm == "KICK":
+                                state = [a, b * cmath.exp(2j * math.pi * phi * float(par))]
+                            elif nm == "CMEASURE":
+                                p1 = abs(b) ** 2
+                                if min(p1, 1 - p1) > 1e-9:
+                                    raise _NotDeterministic(p1, shot)
+                                outcome = "1" if p1 > 0.5 else "0"
+                                state = [0j, 1.0 + 0j] if outcome == "1" else [1.0 + 0j, 0j]
+                            else:
+                                raise AnalysisError(f"IterativeQPEControl.return_gates emits a gate this check does not model: {nm}")
+                    else:
+                        raise AnalysisError("IterativeQPEControl.return_gates does not terminate after n_bits rounds")
+                    measured = obj.fields["measurements"][obj.fields["n_runs"]]
+                    recorded = obj.fields["energies"][obj.fields["n_runs"]]
+                    got = cs.make_folder(idx, IQPE).run_function(read.node, {"self": Rec("IterativeQPESolver", {}), "bitstring": measured[::-1]})
+                    if abs(float(got) - phi) > 1e-12:
+                        bad.append(f"phase {phi}, shot {shot + 1}: outcomes {measured!r} are read as {float(got)}")
                         break
-                    for g in gates:
-                        nm, par = g.fields["name"], g.fields["parameter"]
-                        a, b = state
-                        if nm == "X":
-                            state = [b, a]
-                        elif nm == "H":
-                            state = [(a + b) / math.sqrt(2), (a - b) / math.sqrt(2)]
-                        elif nm == "PHASE":
-                            state = [a, b * cmath.exp(1j * float(par))]
-                        elif nm == "KICK":
-                            state = [a, b * cmath.exp(2j * math.pi * phi * float(par))]
-                        elif nm == "CMEASURE":
-                            p1 = abs(b) ** 2
-                            if min(p1, 1 - p1) > 1e-9:
-                                raise _NotDeterministic(p1)
-                            outcome = "1" if p1 > 0.5 else "0"
-                            state = [0j, 1.0 + 0j] if outcome == "1" else [1.0 + 0j, 0j]
-                        else:
-                            raise AnalysisError(f"IterativeQPEControl.return_gates emits a gate this check does not model: {nm}")
-                else:
-                    raise AnalysisError("IterativeQPEControl.return_gates does not terminate after n_bits rounds")
-                measured = obj.fields["measurements"][obj.fields["n_runs"]]
-                recorded = obj.fields["energies"][obj.fields["n_runs"]]
-                got = cs.make_folder(idx, IQPE).run_function(read.node, {"self": Rec("IterativeQPESolver", {}), "bitstring": measured[::-1]})
+                    elif abs(float(recorded) - phi) > 1e-12:
+                        side.append(f"phase {phi}: recorded {float(recorded)}")
+                    call(obj, "finalize")
             except _NotDeterministic as nd:
-                bad.append(f"phase {phi}: an outcome has probability {nd.args[0]:.3f} (the correction does not cancel the lower bits)")
+                bad.append(f"phase {phi}, shot {nd.args[1] + 1}: an outcome has probability {nd.args[0]:.3f} (the correction does not cancel the lower bits" +
+                           (" - state left over from the previous shot)" if nd.args[1] else ")"))
                 continue
             except (Undecidable, Raised) as e:
                 raise AnalysisError(f"IterativeQPEControl not foldable: {e}")
-            if abs(float(got) - phi) > 1e-12:
-                bad.append(f"phase {phi}: outcomes {measured!r} are read as {float(got)}")
-            elif abs(float(recorded) - phi) > 1e-12:
-                side.append(f"phase {phi}: recorded {float(recorded)}")
         n_cases += 2 ** n_bits
-        rep.decide(not bad, rule, ctl, ctl.node, text=f"{n_bits}-bit register: all {2 ** n_bits} exactly representable eigenphases",
+        rep.decide(not bad, rule, ctl, ctl.node, text=f"{n_bits}-bit register: all {2 ** n_bits} exactly representable eigenphases, two shots on one control object",
                    what="with the returned phase corrections every ancilla measurement is deterministic on an eigenstate, the outcomes spell the eigenphase (least significant bit "
                         "first)",
                    reason="; ".join(bad[:3]))
